@@ -20,7 +20,7 @@ func (c01) ID() string { return "C01" }
 func (c01) Info() core.Info {
 	return core.Info{
 		Rule: "differential monitor: url.Parse / url.ParseRef / (*Url).Parse vs the reference model M (SPEC-NOTES.md) on " +
-			"(a) W-small: every string of length <= L over the alphabet 'a:/\\?#@.1[]%' (L=5 quick, 6 thorough) without base and against 4 fixed bases " +
+			"(a) W-small: every string of length <= L over the alphabet 'a:/\\?#@.1[]%' (L=5 quick, 6 thorough) without base and against 4 fixed bases, and every string of length <= 5/7 over 'c|:/\\.?#' as file: URL and against 4 file bases (drive-letter quirks) " +
 			"(bounded-exhaustive), (b) W-corpus, W-grammar and W-mutate inputs x W-bases. Compared: success/failure, Href and the nine getters. " +
 			"A case is non-trivial when the model or the implementation produced a URL record or the parser made more than 3 main-loop steps " +
 			"before failing; distinct = distinct (input, base, entry point) triples.",
@@ -36,6 +36,19 @@ func (c01) Info() core.Info {
 
 func (c01) Plan(tier string) core.Plan { return core.Plan{Shards: 16} }
 
+const fileAlphabet = "c|:/\\.?#"
+
+var fileBases = []struct {
+	has  bool
+	base string
+}{
+	{false, ""},
+	{true, "file:///"},
+	{true, "file:///C:/a/b"},
+	{true, "file://h/x/y?q#f"},
+	{true, "file:///C:"},
+}
+
 func (m c01) Run(ctx *core.Ctx) {
 	L := 5
 	if ctx.Tier == "thorough" {
@@ -46,6 +59,25 @@ func (m c01) Run(ctx *core.Ctx) {
 		s := gen.SmallString(gen.SmallAlphabet, idx)
 		for _, b := range smallBases {
 			cs := &core.Case{Check: "small", Input: core.S(s), Base: core.S(b.base), HasBase: b.has}
+			ctx.Begin(cs)
+			m.Exec(ctx, cs)
+		}
+	}
+	// second bounded-exhaustive core: the file / drive-letter quirks (alphabet 'c | : / \\ . ? #')
+	// as references against file bases and as file: URLs
+	L2 := 5
+	if ctx.Tier == "thorough" {
+		L2 = 7
+	}
+	total2 := gen.SmallCount(len(fileAlphabet), L2)
+	for idx := int64(ctx.Shard); idx < total2; idx += int64(ctx.NShards) {
+		s := gen.SmallString(fileAlphabet, idx)
+		for _, b := range fileBases {
+			in := s
+			if !b.has {
+				in = "file:" + s
+			}
+			cs := &core.Case{Check: "small-file", Input: core.S(in), Base: core.S(b.base), HasBase: b.has}
 			ctx.Begin(cs)
 			m.Exec(ctx, cs)
 		}
